@@ -72,7 +72,12 @@ where
     for (symbol_key, func) in map.iter() {
         if meta.path == *symbol_key {
             let v = func(attr_name, *symbol_key, &meta)?;
-            result.insert(*symbol_key, v);
+            if result.insert(*symbol_key, v).is_some() {
+                return Err(meta.error(format_args!(
+                    "`{1}` is given more than once in `{0}(...)`",
+                    attr_name.0, symbol_key.1
+                )));
+            }
             match_ = true;
         }
     }
